@@ -41,12 +41,15 @@ Inductive op :=
 
 Record script := MkScript { sc_ops : list op; sc_ret : Z }.
 
-(* static facts of a case: truthiness of each sender class, class of each sender, whether each
-   weakly referenced object is part of a reference cycle, the script of each callback *)
+(* static facts of a case: class of each sender, whether each weakly referenced object is part
+   of a reference cycle, the script of each callback.  (Whether a sender class is true in a
+   boolean context is an input of the harness only: since the weakref callback tests
+   [if o is not None:] the behaviour does not depend on it.) *)
 Record envt := MkEnv {
-  e_classes : list bool; e_senders : list Z; e_cyclic : list bool; e_cbs : list script }.
+  e_senders : list Z; e_cyclic : list bool; e_cbs : list script;
+  e_maxcalls : Z }.       (* total number of callback invocations the harness allows in one case *)
 
-Inductive status := Done | Raised (code : Z).     (* -1 NameError, -3 RecursionError *)
+Inductive status := Done | Raised (code : Z).     (* -1 NameError, -3 RecursionError, -8 call budget exhausted *)
 
 Inductive event :=
   | EvReg (cls : Z) (names : list Z)
@@ -66,16 +69,18 @@ Record state := MkState {
   st_reg : list Z;                             (* objects the caller still holds a strong reference to *)
   st_pend : list Z;                            (* dropped by the caller, not dead yet (sorted) *)
   st_dead : list Z;                            (* objects that died *)
-  st_held : list Z                             (* arguments of the active callback frames *)
+  st_held : list Z;                            (* arguments of the active callback frames *)
+  st_calls : Z                                 (* callback invocations so far *)
 }.
 
-Definition set_sup st v := MkState v (st_tab st) (st_nkey st) (st_reg st) (st_pend st) (st_dead st) (st_held st).
-Definition set_tab st v := MkState (st_sup st) v (st_nkey st) (st_reg st) (st_pend st) (st_dead st) (st_held st).
-Definition set_nkey st v := MkState (st_sup st) (st_tab st) v (st_reg st) (st_pend st) (st_dead st) (st_held st).
-Definition set_reg st v := MkState (st_sup st) (st_tab st) (st_nkey st) v (st_pend st) (st_dead st) (st_held st).
-Definition set_pend st v := MkState (st_sup st) (st_tab st) (st_nkey st) (st_reg st) v (st_dead st) (st_held st).
-Definition set_dead st v := MkState (st_sup st) (st_tab st) (st_nkey st) (st_reg st) (st_pend st) v (st_held st).
-Definition set_held st v := MkState (st_sup st) (st_tab st) (st_nkey st) (st_reg st) (st_pend st) (st_dead st) v.
+Definition set_sup st v := MkState v (st_tab st) (st_nkey st) (st_reg st) (st_pend st) (st_dead st) (st_held st) (st_calls st).
+Definition set_tab st v := MkState (st_sup st) v (st_nkey st) (st_reg st) (st_pend st) (st_dead st) (st_held st) (st_calls st).
+Definition set_nkey st v := MkState (st_sup st) (st_tab st) v (st_reg st) (st_pend st) (st_dead st) (st_held st) (st_calls st).
+Definition set_reg st v := MkState (st_sup st) (st_tab st) (st_nkey st) v (st_pend st) (st_dead st) (st_held st) (st_calls st).
+Definition set_pend st v := MkState (st_sup st) (st_tab st) (st_nkey st) (st_reg st) v (st_dead st) (st_held st) (st_calls st).
+Definition set_dead st v := MkState (st_sup st) (st_tab st) (st_nkey st) (st_reg st) (st_pend st) v (st_held st) (st_calls st).
+Definition set_held st v := MkState (st_sup st) (st_tab st) (st_nkey st) (st_reg st) (st_pend st) (st_dead st) v (st_calls st).
+Definition set_calls st v := MkState (st_sup st) (st_tab st) (st_nkey st) (st_reg st) (st_pend st) (st_dead st) (st_held st) v.
 
 Definition memz (x : Z) (l : list Z) : bool := existsb (Z.eqb x) l.
 
@@ -96,9 +101,6 @@ Definition opt_eqb (a b : option Z) : bool :=
 (* ---------- environment lookups ---------- *)
 Definition sender_class (env : envt) (s : Z) : Z :=
   match nthz (e_senders env) s with Some c => c | None => -1 end.
-(* bool(sender): the weakref callback tests [if o:] *)
-Definition sender_truthy (env : envt) (s : Z) : bool :=
-  match nthz (e_classes env) (sender_class env s) with Some b => b | None => true end.
 Definition cyclic (env : envt) (o : Z) : bool :=
   match nthz (e_cyclic env) o with Some b => b | None => false end.
 Definition script_of (env : envt) (cb : Z) : script :=
@@ -182,15 +184,13 @@ Definition disconnect (s n cb : Z) (ua : option Z) (ws us : list Z) (st : state)
     end.
 
 (* ---------- weakref_callback (closure created by connect), for every weakref to o ---------- *)
-(* o = obj_weak(); if o: self.disconnect_by_key(o, name, key) *)
-Definition die (env : envt) (o : Z) (st : state) : state :=
+(* o = obj_weak(); if o is not None: self.disconnect_by_key(o, name, key)
+   (senders stay alive during a history, so o is never None here) *)
+Definition die (o : Z) (st : state) : state :=
   set_dead
     (set_tab st
        (map (fun kl : (Z * Z) * list handler =>
-               (fst kl,
-                if sender_truthy env (fst (fst kl))
-                then filter (fun h => negb (memz o (h_wargs h))) (snd kl)
-                else snd kl))
+               (fst kl, filter (fun h => negb (memz o (h_wargs h))) (snd kl)))
             (st_tab st)))
     (o :: st_dead st).
 
@@ -202,7 +202,7 @@ Definition dying (env : envt) (gc : bool) (st : state) (o : Z) : bool :=
 Definition reap (env : envt) (gc : bool) (st : state) : state * list event :=
   let ds := filter (dying env gc st) (st_pend st) in
   let st1 := set_pend st (filter (fun o => negb (dying env gc st o)) (st_pend st)) in
-  (fold_left (fun s o => die env o s) ds st1, map EvDied ds).
+  (fold_left (fun s o => die o s) ds st1, map EvDied ds).
 
 Fixpoint insert_sorted (o : Z) (l : list Z) : list Z :=
   match l with
@@ -241,11 +241,13 @@ Definition call_callback (run : list op -> state -> state * list event * status)
            (args : list Z) (h : handler) (st : state) : state * list event * status * bool :=
   (* for w_arg in weak_args: real_arg = w_arg(); if real_arg is None: return False *)
   if existsb (fun w => memz w (st_dead st)) (h_wargs h) then (st, [], Done, false)
+  (* the harness callback refuses to run once the case's call budget is used up (it raises) *)
+  else if e_maxcalls env <=? st_calls st then (st, [], Raised (-8), false)
   else
     (* args = chain(args_to_pass, user_args, emit_args, (user_arg,) if user_arg is not None else ());
        return bool(callback( *args)) *)
     let sc := script_of env (h_cb h) in
-    let st1 := set_held st (h_wargs h ++ st_held st) in
+    let st1 := set_held (set_calls st (st_calls st + 1)) (h_wargs h ++ st_held st) in
     let '(st2, body, s2) := run (sc_ops sc) st1 in
     match s2 with
     | Done =>
@@ -320,7 +322,7 @@ Fixpoint run_top (fuel : nat) (env : envt) (ops : list op) (st : state) : state 
 
 Definition zseq (n : Z) : list Z := map Z.of_nat (seq 0 (Z.to_nat n)).
 
-Definition init (nobj : Z) : state := MkState [] [] 0 (zseq nobj) [] [] [].
+Definition init (nobj : Z) : state := MkState [] [] 0 (zseq nobj) [] [] [] 0.
 
 (* ================= wire format ================= *)
 Definition dec_optz (l : list Z) : option (option Z * list Z) := dec_oz l.
@@ -429,10 +431,10 @@ Definition enc_final (st : state) (nsenders nnames : Z) : list Z :=
       match keys st s n with [] => [] | ks => [s :: n :: enc_list ks] end) (zseq nnames)) (zseq nsenders) in
   zlen entries :: concat entries.
 
-(* case = fuel, nnames, classes, senders, cyclic flags, scripts, ops *)
+(* case = fuel, nnames, maxcalls, classes, senders, cyclic flags, scripts, ops *)
 Definition run_case (l : list Z) : list Z :=
   match l with
-  | fuel :: nnames :: r0 =>
+  | fuel :: nnames :: maxcalls :: r0 =>
       match dec_list r0 with
       | Some (classes, r1) =>
           match dec_list r1 with
@@ -446,8 +448,8 @@ Definition run_case (l : list Z) : list Z :=
                       | Some (cbs, r5) =>
                           match dec_counted_ops r5 with
                           | Some (ops, []) =>
-                              let env := MkEnv (map (fun b => negb (b =? 0)) classes) senders
-                                               (map (fun b => negb (b =? 0)) cyc) cbs in
+                              (* [classes] (truthiness of the sender classes) is not consulted *)
+                              let env := MkEnv senders (map (fun b => negb (b =? 0)) cyc) cbs maxcalls in
                               let '(st, evs) := run_top (Z.to_nat fuel) env ops (init (zlen cyc)) in
                               let flat := flat_map ser evs in
                               zlen flat :: flat_map (fun e => enc_list e) flat
